@@ -1859,7 +1859,7 @@ fc_statements = [
         mixin=[
             "c_mixin_cfi_character_arg",
         ],
-        c_helper="ShroudStrCopy",
+        c_helper="ShroudStrCopy ShroudLenTrim",
         cxx_local_var="scalar",
         pre_call=[
             "char *{c_var} = "
